@@ -77,6 +77,9 @@ def r1_local_mutations(ctx):
         r.anchor_missing("ClientSecretStorage::{create_secret,write_secret,remove_secret} (found %d)" % found)
 
 
+INDEX_MUTATORS = {"prepare", "commit", "remove", "add", "remove_vault", "remove_all", "add_folder", "add_vault", "remove_folder"}
+
+
 def r2_merge_replay(ctx):
     ws = ctx.ws
     r = ctx.rule("C20-R2", "merge replay updates the index per event kind",
@@ -100,7 +103,12 @@ def r2_merge_replay(ctx):
         got = [cname(t) for _i, t in arms.get(v, []) if cfg.call_matches(t, INDEX)]
         k = "%s|%s" % (f.root, v)
         miss = [o for o in ops if o not in got]
-        if miss:
+        extra = [o for o in got if o in INDEX_MUTATORS and o not in ops]
+        if extra and not miss:
+            r.violation(k, cfg.loc(body, best.block),
+                        "the %s arm of merge also calls SearchIndex::%s: the statistics (document counters) and postings change for a document this event does not %s" % (
+                            v, extra, "remove" if "remove" in extra else "add"), work=len(arms.get(v, [])))
+        elif miss:
             r.violation(k, cfg.loc(body, best.block), "the %s arm of merge does not call SearchIndex::%s: merged changes from other devices leave the index stale" % (v, miss), work=len(arms.get(v, [])))
         else:
             r.ok(k, cfg.loc(body, best.block), "%s arm: %s" % (v, got), work=len(arms.get(v, [])))
